@@ -13,7 +13,7 @@ PROPS = "Walk/Props_C09.v"
 COQ_FILES = wc.COQ_FILES + ["Walk/Invariant.v", "Walk/Faults.v", "Walk/FaultProofs.v", "Walk/ConfineProofs.v",
                             "Walk/ContainProofs.v", "Walk/Props_C09.v"]
 THEOREMS = ["nonfatal_never_fails", "faults_contained", "faults_surface", "required_file_outcome",
-            "fatal_iff_traversal_fault", "scan_status_derivation", "unreadable_gitignore_aborts_refuted"]
+            "fatal_iff_traversal_fault", "scan_status_derivation"]
 
 META = {
     "technique": "Coq proof over all trees carrying any number of fault annotations (walk = execution of a pure schedule; "
@@ -25,11 +25,11 @@ META = {
                   "(faults_contained), every open/stat/extract failure is an item of the owning plugin's failed / partially-"
                   "succeeded status and every non-succeeded status has such a cause (faults_surface, required_file_outcome); "
                   "with ErrorOnFSErrors the scan succeeds iff no traversal fault is reached (fatal_iff_traversal_fault); Scan's "
-                  "status is Failed iff Run returned an error (scan_status_derivation). One sentence is still REFUTED: an unreadable "
-                  ".gitignore under UseGitignore aborts the scan although errors are not fatal (unreadable_gitignore_aborts_refuted, known "
-                  "finding with a proposed fix; it no longer panics). The lazy-Stat abort was repaired (/repo commit fcea44df): such a file is "
-                  "now skipped, which faults_contained accounts for; its witness is in the regression corpus. tree_quiet excludes the "
-                  "unreadable .gitignore and Stat faults on files when a FileRequired consults api.Stat().",
+                  "status is Failed iff Run returned an error (scan_status_derivation). No refutation is left: the lazy-Stat abort, the "
+                  "gitignore-stack panic and the unreadable-.gitignore abort were repaired in /repo (commits fcea44df, 3fdcaf3f, d544b0e3); "
+                  "their witnesses are in the regression corpus. faults_contained carries gi_readable (an unreadable .gitignore contributes "
+                  "no patterns, so the scan is not compared with the fault-free one there); tree_quiet only excludes Stat faults on files "
+                  "when a FileRequired consults api.Stat().",
     "level_note": "Trusted: Coq kernel + vm_compute; harness file system (fault injection per operation site, error kinds permission / "
                   "other mapped to one model fault); a failing read inside an extractor is the extractor's own error return (the "
                   "Extract table). standalone.Run is not exercised.",
